@@ -62,8 +62,12 @@ c.finish(
         "the decode functions passed to Decode/DecodeExclusive perform cache operations only through the cursor "
         "they are given or a fresh one, ignore errors of nested calls, and fail or return nil as a function of (object, type)",
         "StoreOrLoadPair is applied to references of real objects, not to alias objects (objects that are themselves a reference)",
-        "no_deadlock: objects decoded with DecodeExclusive are sinks (the documented restriction); "
-        "seq_equiv: DecodeExclusive is called with a fresh cursor",
+        "no_deadlock_ranked: the relation 'the decode function of key k calls DecodeExclusive for key k'' (through nested "
+        "plain Decodes) is well-founded, given as a rank on (reference, type) keys - the documented sink restriction is "
+        "the special case; a cyclic dependency admits no rank and deadlocks (Examples)",
+        "seq_equiv (exact characterisation of when the interleaved outcome differs from the run-alone outcome: a cache "
+        "hit before a cycle/depth check, or a StoreOrLoadPair view of an object the decoder rejects): DecodeExclusive "
+        "is called with a fresh cursor",
         "Reader.Get is a function of the reference (the file is immutable) and is modelled by `next`; I/O errors are out of scope (C19)",
     ],
     trusted=[
@@ -83,9 +87,6 @@ c.finish(
         "chains, still a TEST with respect to schedules",
         "the model's atomic steps are sound only if every critical section really is protected by Extractor.mu; the "
         "enumeration exercises this (verifLocked fires on a missing Lock) but does not prove it",
-        "seq_equiv_partial: proved are 'error under some interleaving => same error class alone' and 'success alone => "
-        "success (with the agreed value) under every interleaving'; the converse fails already sequentially because a "
-        "cache hit ends the reference walk before the cycle/depth check (Example seq_equiv_full_converse_fails_sequentially)",
         "two goroutines: ALL schedules (start steps in fixed order: they are thread-local); three goroutines and the "
         "programs listed under programs_sampled: a fixed budget of random schedules (sampling)",
         "Reader.Get / DecodeStream themselves (scanner, filters) are covered only by the race runs, not by the model",
